@@ -37,7 +37,7 @@ META = dict(
 METHODS = ("transform", "inverse", "transform_and_log_det", "inverse_and_log_det")
 BIJ_Q = ["affine2", "affine_bcast", "loc", "scale", "tri2l", "addcond", "exp", "softplus", "tanh", "leakytanh", "rqs1", "rqs1b", "planar2", "planar2tanh", "perm3", "perm22", "flip3", "identity",
          "chain_ae", "chain_cond", "scan3", "vmap_mapped", "vmap_c1", "concatm1", "stackm1", "stack_r2_m2", "partial_boolarr", "partial_intarr", "invert_exp", "reshape", "embed", "coupling3", "coupling2c", "maf3", "maf2c"]
-BIJ_T = BIJ_Q + ["rqs2", "tri3u", "planar2c", "chain_nested", "vmap_bcast", "vmap_cm1", "concat_r2_0", "stack1", "partial_int", "partial_slice", "coupling2rqs", "cflow_inv", "mflow_fwd", "pflow_inv"]
+BIJ_T = BIJ_Q + ["rqs2", "tri3u", "bnaf2", "chain_nested", "vmap_bcast", "vmap_cm1", "concat_r2_0", "stack1", "partial_int", "partial_slice", "coupling2rqs", "cflow_inv", "mflow_fwd", "pflow_inv"]
 
 
 def _errs(errors):
